@@ -173,6 +173,20 @@ func genC17(repo string) (string, error) {
 		}
 		o.strList(cs.coq, args, "the argument of LoadRegionsOnce in "+cs.fn)
 	}
+	// the callback itself: what put_loaded / rw_loaded mirror (stale record of a cached id is refreshed, ids ahead of the
+	// loaded record are not reported)
+	{
+		f, err := goast.Load(repo, "server/core/basic_cluster.go")
+		if err != nil {
+			return "", err
+		}
+		fd, err := f.Func("BasicCluster", "CheckAndPutLoadedRegion")
+		if err != nil {
+			return "", err
+		}
+		nzNormalize(fd)
+		o.strList("src_CheckAndPutLoadedRegion", stmtTexts(f, fd), "statements of (BasicCluster).CheckAndPutLoadedRegion")
+	}
 	// the end-exclusive range scans of the three backends (what LoadRange promises)
 	for _, b := range []struct{ file, recv, coq string }{{"server/kv/mem_kv.go", "memoryKV", "src_mem_LoadRange"},
 		{"server/kv/etcd_kv.go", "etcdKVBase", "src_etcd_LoadRange"}, {"server/kv/levedb_kv.go", "LeveldbKV", "src_leveldb_LoadRange"}} {
